@@ -50,6 +50,9 @@ def generate(streams, tier):
             op["order"] = shuffled(rw, range(world["n"])) if rw.random() < 0.3 else None
             op["inplace"] = rw.random() < 0.3
         ops.append(op)
+    if kind == "mn" and not connected and rw.random() < 0.5:
+        # a disconnected network (possibly with vertices that have no edge at all) handed to the copying form of triangulate
+        ops.append({"op": "triangulate", "heuristic": rw.choice(["H1", "H2", "H3", "H4", "H5", "H6"]), "order": None, "inplace": False})
     # one source object for the whole history (conversions must leave their source as it was) or a fresh one per operation
     return {"kind": kind, "world": world, "config": config, "ops": ops, "shared_model": rw.random() < 0.5}
 
@@ -161,10 +164,10 @@ def execute(case, ctx):
                 got_edges = {frozenset((L2(a), L2(b))) for a, b in g.edges()}
                 if not edges0 <= got_edges:
                     ctx.fail("chordal_supergraph", f"{PROP}:triangulate_lost_edge", {"missing": sorted(map(sorted, edges0 - got_edges))})
-                nodes_with_edges = {v for e in edges0 for v in e}
                 got_nodes = {L2(x) for x in g.nodes()}
-                if not nodes_with_edges <= got_nodes:
-                    ctx.fail("chordal_supergraph", f"{PROP}:triangulate_lost_node", {"missing": sorted(nodes_with_edges - got_nodes)})
+                if not set(range(n)) <= got_nodes:
+                    # a supergraph has every vertex of the graph, also those without an edge
+                    ctx.fail("chordal_supergraph", f"{PROP}:triangulate_lost_node", {"missing": sorted(set(range(n)) - got_nodes), "inplace": bool(op.get("inplace"))})
                 if not is_chordal(sorted(got_nodes), got_edges):
                     ctx.fail("chordal_supergraph", f"{PROP}:not_chordal", {"heuristic": op["heuristic"], "order": op.get("order"), "edges": sorted(map(sorted, got_edges))})
                 if got_edges != edges0:
